@@ -272,7 +272,7 @@ def run_isar_stream(chk, workdir, n_schemas, c_safe):
 
 CONST_EDGES = ['18446744073709551615', '18446744073709551616', '-18446744073709551615', '-9223372036854775808', '-9223372036854775809',
                '9223372036854775807 + 1', '0xFFFFFFFFFFFFFFFF', '0x10000000000000000', '-(1 << 63)', '-(1 << 63) - 1', '(1 << 64) - 1', '-0',
-               '2 * 9223372036854775807 + 1', '0 - 9223372036854775808', '1 << 64']
+               '2 * 9223372036854775807 + 1', '0 - 9223372036854775808', '1 << 64', '-2147483648', '-2147483649', '-4294967295', '-9223372036854775807']
 
 
 def run_const_edges(chk, workdir):
@@ -308,7 +308,8 @@ def run_const_edges(chk, workdir):
                 f.write('#include <stdio.h>\n#include "%s"\nint main() { if (%sKE < 0) printf("%%lld\\n", (long long)%sKE); else printf("%%llu\\n", (unsigned long long)%sKE); }\n'
                         % (hdr, ns, ns, ns))
             exe = prog[:-4]
-            p = subprocess.run(['g++', '-std=c++11', '-w', '-I' + os.path.join(REPO, 'prophy_cpp', 'include'), '-I' + workdir, prog, '-o', exe],
+            # -pedantic-errors: a literal that only fits an unsigned type, written for a negative value, is an error (defect D150)
+            p = subprocess.run(['g++', '-std=c++11', '-pedantic-errors', '-I' + os.path.join(REPO, 'prophy_cpp', 'include'), '-I' + workdir, prog, '-o', exe],
                                stdout=subprocess.PIPE, stderr=subprocess.STDOUT, timeout=300)
             key = 'c++ full' if full else 'c++ raw'
             if p.returncode != 0:
@@ -319,7 +320,7 @@ def run_const_edges(chk, workdir):
             chk.property_violation(icase, {'what': 'an accepted constant is not the integer %d in every back-end' % want, 'values': got})
 
 
-HOST_TEXTS = ['12', '0x10', '7/2', '(9-2)/2+5', '2*(3+4)', '(0-7)/2+5', '10+(1-8)/2', '010', '0010+1', '(1) << (31)', '2147483647 + 1', '65536 * 65536',
+HOST_TEXTS = ['12', '0x10', '-0x10', '-3', '7/2', '(9-2)/2+5', '2*(3+4)', '(0-7)/2+5', '10+(1-8)/2', '010', '0010+1', '(1) << (31)', '2147483647 + 1', '65536 * 65536',
               '1 << 30', '32768 * 65535']
 
 
